@@ -8,7 +8,7 @@ NSEG = 4 * (len(zg.QTYPES) + 2)
 
 def gen(rng, tier):
     quick = tier == "quick"
-    nzones = 400 if quick else 4000
+    nzones = 330 if quick else 4000
     for zi in range(nzones):
         apex, cls, recs = zg.gen_zone(rng)
         head = f"L {zg.nm(apex)} {cls} {';'.join(recs) if recs else '-'}"
@@ -25,7 +25,9 @@ def gen(rng, tier):
 
 def oracle_ok(case, impl, oracle):
     if oracle == "-":
-        return False
+        # no model/oracle column at all (the executable model could not be built: reported separately as a broken
+        # obligation, "no-failing-input-found"); not a verdict about this input
+        return True
     # The property is about DNS names, which are case-insensitive: the verdict compares names
     # case-insensitively.  (The oracle column spells names as c06_lookup_exact proves the code does, and
     # the model column is compared with the implementation exactly, so a change of letter case is still
@@ -65,7 +67,10 @@ def classify(case, impl, model, oracle):
 CHECK = {
     "property": "C06",
     "props": "Props/C06.v",
-    "theorems": ["c06_lookup_refines", "c06_lookup_addrs_refines", "c06_lookup_all_refines",
+    "theorems": ["c06_req_real_is_equals", "c06_build_total_real",
+                 "c06_lookup_refines_real", "c06_lookup_addrs_refines_real", "c06_lookup_all_refines_real",
+                 "c06_lookup_exact_real", "c06_lookup_addrs_exact_real", "c06_lookup_all_exact_real",
+                 "c06_lookup_refines", "c06_lookup_addrs_refines", "c06_lookup_all_refines",
                  "c06_lookup_exact", "c06_lookup_addrs_exact", "c06_lookup_all_exact",
                  "c06_build_total", "c06_unchecked_outside", "c06_req_simple_transitive"],
     "allowed_axioms": [],
@@ -78,7 +83,12 @@ CHECK = {
     "exhaustive": {"quick": False, "thorough": False},
     "timeout": {"quick": 300, "thorough": 3000},
     "rule": ("seeded random zones (<=40 adds over labels {a,b,c,*,A}, apexes ., c., b.c., A.b.; NS at several depths, "
-             "wildcards, CNAMEs, empty non-terminals, TTL/class/out-of-zone rejects, case variants); per zone EVERY name "
+             "wildcards, CNAMEs, empty non-terminals, TTL/class/out-of-zone rejects, case variants of owners; name-bearing "
+             "RDATA of NS/CNAME/PTR/MB/MG/MR/MD/MF/MX/SOA/MINFO/SRV and CH-class A in bursts of 1..3 records of one RRset that "
+             "differ only in the letter case of the embedded names, in a fixed field, or by a malformation (junk octet, missing "
+             "root label, 64-octet label, compression pointer, >255-octet name, leading root label) applied to all variants or to "
+             "one of them, names with 63-octet labels and of exactly 255 octets, classes IN/CH/7 so that SRV and A change their "
+             "comparison rule); per zone EVERY name "
              "of <= apex+3 labels over the alphabet, 12 random deeper/case-flipped names and up to 8 names outside the "
              "zone; per name all 4 (unchecked, search_below_cuts) combinations x (lookup for types "
              "A,NS,CNAME,SOA,TXT,AAAA,MX,255 + lookup_addrs + lookup_all) on one line; non-trivial = the line contains a "
@@ -90,11 +100,13 @@ CHECK = {
         "correspondence: checks/c06.py + checks/zonegen.py generators, harness/src/bin/impl_zone.rs, ocaml/run_zone.ml, line diff in tools/qv.py",
         "tools/gen/zoneconsts.py re-extracts Type::{A,NS,CNAME,SOA,MX,AAAA}, Class::IN and Label::asterisk() from the source",
         "model abstractions (differentially tested, not proved): Name as list of labels, HashMap as association list under the "
-        "case-insensitive label equality, RdataSetOwned as list of RDATAs, binary_search_by_key as ordered scan of the sorted Vec",
-        "Rdata::equals is a parameter of the model and the spec; theorems assume only that it is transitive "
-        "per (class,type); the runner instantiates it with req_simple (exact on the generated RDATA)",
+        "case-insensitive label equality, RdataSetOwned as list of RDATAs (refined to the octet buffer in C20/C19), "
+        "binary_search_by_key as ordered scan of the sorted Vec",
+        "Rdata::equals is no longer a parameter: the *_real theorems use Model/RdataM.v equals (the model C19 proves total and "
+        "equal to the RFC characterisation spec_equals; its dispatcher is regenerated from the source by tools/gen/rdata.py) on the "
+        "model side and spec_equals on the specification side; the runner runs exactly these",
     ],
-    "assumptions": ["Rdata::equals is transitive for every (class, type) (its being an equivalence is the subject of C19)",
+    "assumptions": ["every RDATA is a string of octets (elements < 256: the u8 type) — the domain of C19's theorems",
                     "zones are built only by HashMapTreeZone::new and add",
                     "unchecked lookups are given names at or below the apex (caller contract of LookupOptions::unchecked); "
                     "the other case is characterised separately by c06_unchecked_outside"],
@@ -103,11 +115,12 @@ CHECK = {
 MANIFEST = {
     "level_text": ("Coq theorems (no axioms): for every add history, every name, type and option combination, lookup / "
                    "lookup_addrs / lookup_all of the model of HashMapTreeZone equal an independent RFC 1034 §4.3.2 / RFC 4592 "
-                   "specification evaluated on the flat list of accepted records (exactly, including the letter case of reported names); the model "
-                   "is tied to the code by a differential run over ~70k names x 40 lookups per quick run, and the extracted "
+                   "specification evaluated on the flat list of accepted records (exactly, including the letter case of reported names), with RRsets "
+                   "de-duplicated by the real Rdata::equals (model) / its RFC characterisation (specification); the model "
+                   "is tied to the code by a differential run over ~58k names x 40 lookups per quick run, and the extracted "
                    "specification is evaluated on every implementation answer."),
-    "level_note": ("Trusted: Coq kernel, extraction, the hand-written model's correspondence to the Rust code (differentially tested), "
-                   "Rdata::equals taken as an abstract equivalence."),
+    "level_note": ("Trusted: Coq kernel, extraction, the hand-written model's correspondence to the Rust code (differentially tested). "
+                   "Rdata::equals is the proved model of C19 (real instance), not a parameter."),
     "technique": "machine-checked proof in Coq (refinement of a flat-record-set specification by the tree model) + model/implementation correspondence check",
     "design_ref": "DESIGN.md §4 C06",
 }
